@@ -184,7 +184,7 @@ func genPayload(r *prng.R, t tree, shape int) []item {
 	}
 	switch shape {
 	case shInvalidFlow:
-		set("f/"+prng.Pick(r, flows)+".yaml", prng.Pick(r, []string{"bad", "bad", "empty", "xjunk"}))
+		set("f/"+prng.Pick(r, flows)+".yaml", prng.Pick(r, []string{"bad", "empty", "xjunk", "e0", "e1", "e2", "e3", "e4", "e5"}))
 	case shBadB64:
 		if len(items) == 0 {
 			set("f/a.yaml", "@")
@@ -499,6 +499,25 @@ func genDelayed(r *prng.R, t tree, kind int) []string {
 	return ops
 }
 
+// policies mode: sequences of pushes / reverts, with the proxy refusing the admin calls of some of them.
+func genPolicies(r *prng.R) []string {
+	ops := []string{fmt.Sprintf("pinit k=%d", r.Range(0, 9)), "pstate"}
+	n := r.Range(2, 6)
+	for i := 0; i < n; i++ {
+		fault := prng.Pick(r, []string{"none", "none", "ha"})
+		switch r.Intn(8) {
+		case 0:
+			ops = append(ops, "ppush k="+prng.Pick(r, []string{"invalid", "badyaml"})+" fault="+fault)
+		case 1:
+			ops = append(ops, "prevert to="+prng.Pick(r, []string{"last", "diag"})+" fault="+fault)
+		default:
+			ops = append(ops, fmt.Sprintf("ppush k=%d fault=%s", r.Range(0, 9), fault))
+		}
+		ops = append(ops, "pstate")
+	}
+	return ops
+}
+
 func gen(r *prng.R, f proto.Flags, emit func(proto.Case)) {
 	payloads := 90
 	if f.Tier == "thorough" {
@@ -526,6 +545,15 @@ func gen(r *prng.R, f proto.Flags, emit func(proto.Case)) {
 		rr := r.Fork()
 		t := genTree(rr)
 		one(t, genHistory(rr, t, k%5)...)
+	}
+	pol := 60
+	if f.Tier == "thorough" {
+		pol = 1000
+	}
+	for k := 0; k < pol*f.Budget; k++ {
+		rr := r.Fork()
+		id++
+		emit(proto.Case{ID: fmt.Sprintf("g%d", id), Ops: genPolicies(rr)})
 	}
 	delayed := 100
 	if f.Tier == "thorough" {
